@@ -373,6 +373,7 @@ class LocatedErrorBinding(Contract):
     modifies_fields = ('coerce_value',)
     instance_overrides = ('coerce_value',)
     no_merge = True       # every combination of (own / bound / absent) x (path, locations) x (shape of nodes) is its own small path
+    prune_ms = 600        # a generous pruner budget: unpruned infeasible paths of this function run into unmodelled attributes (tainted, undecided)
 
     def args(self, en, names):
         self.A = super().args(en, names)
